@@ -138,11 +138,14 @@ Proof. exact roundtrip_twcc. Qed.
 Print Assumptions C09_roundtrip_twcc.
 
 Example C09_roundtrip_twcc_nonvacuous :
-  exists f, fb_adds (fb_new 5 1000) [(5, 1000); (7, 1300); (8, 70000)] = Some f /\
-    on_twcc [(7, 0, 1200, 9, 0, 0)] 5 (p_ref (fb_get_rtcp 1 2 0 f))
-            (map chunk_of_wire (p_chunks (fb_get_rtcp 1 2 0 f))) (map snd (p_deltas (fb_get_rtcp 1 2 0 f)))
-    = Some [zero_ack; zero_ack; (7, 0, 1200, 9, 1250000, 0); zero_ack].
-Proof. eexists. split; vm_compute; reflexivity. Qed.
+  match fb_adds (fb_new 5 1000) [(5, 1000); (7, 1300); (8, 70000)] with
+  | Some f =>
+      let p := fb_get_rtcp 1 2 0 f in
+      on_twcc [(7, 0, 1200, 9, 0, 0)] (p_base p) (p_ref p) (map chunk_of_wire (p_chunks p)) (map snd (p_deltas p))
+      = Some [zero_ack; zero_ack; (7, 0, 1200, 9, 1250000, 0); zero_ack; zero_ack; zero_ack; zero_ack]
+  | None => False
+  end.
+Proof. vm_compute. reflexivity. Qed.
 Print Assumptions C09_roundtrip_twcc_nonvacuous.
 
 (* TWCC, recorder level: EVERY packet of EVERY BuildFeedbackPacket of EVERY Record/Build
@@ -207,11 +210,29 @@ Proof. exact IV.Proofs.FbRoundTrip8888.rfc8888_time_within. Qed.
 Print Assumptions C09_rfc8888_time_within.
 
 Example C09_roundtrip_rfc8888_nonvacuous :
-  let s := IV.Model.StreamLog.sl_add IV.Proofs.Rfc8888Proofs.exact_atok
-             (IV.Model.StreamLog.sl_add IV.Proofs.Rfc8888Proofs.exact_atok (IV.Model.StreamLog.new_slog 9) 1000000 100 1)
+  let s := IV.Model.StreamLog.sl_add
+             (IV.Model.StreamLog.sl_add (IV.Model.StreamLog.new_slog 9) 1000000 100 1)
              3000000 102 0 in
   on_ccfb [(102, 9, 1200, 7, 0, 0); (100, 9, 1100, 5, 0, 0)] 5000000
           [snd (IV.Model.StreamLog.metrics_after IV.Proofs.Rfc8888Proofs.exact_atok s 5000000 10)]
   = [(100, 9, 1100, 5, 1093750, 1); (102, 9, 1200, 7, 3046875, 0)].
 Proof. vm_compute. reflexivity. Qed.
 Print Assumptions C09_roundtrip_rfc8888_nonvacuous.
+
+(* ---------------- the run-time oracle's own decode and history ---------------- *)
+From IV Require Check.C09Check Proofs.C09OracleLink.
+
+(* Check/C09Check.v [arrivals] (what cc_spec_failures / fb_spec_failures decode with) *)
+Theorem C09_oracle_arrivals_iff : forall ref24 syms ds k t,
+  (k < length syms)%nat -> (ndeltas (firstn (S k) syms) <= length ds)%nat ->
+  (nth k (IV.Check.C09Check.arrivals (ref24 * 64000000) syms ds) None = Some t <->
+   is_delta_sym (nth k syms 0) = true /\ t = arrival_at ref24 syms ds k).
+Proof. exact IV.Proofs.C09OracleLink.oracle_arrivals_iff. Qed.
+Print Assumptions C09_oracle_arrivals_iff.
+
+(* the history cc_spec_failures rebuilds from the sends ([ohist] of the send log) is the
+   adapter model's history after the same operations *)
+Theorem C09_oracle_history_is_model : forall reftime ops,
+  IV.Check.C09Check.ohist (send_log ops []) = final reftime [] ops.
+Proof. exact IV.Proofs.C09OracleLink.oracle_history_is_model. Qed.
+Print Assumptions C09_oracle_history_is_model.
